@@ -125,6 +125,36 @@ def run_case(ctx, case):
         (IsCompletedObserver if which.startswith("completed") else RemainingOperationsObserver)(
             d, feature_types=[ft])
         ctx.count("partial_observers_present_before_updater")
+    if case["seed"] % 7 == 3:
+        # two user observers subscribed before the updater: the second one unsubscribes the first
+        # from inside one of its updates (every other subscriber still gets that dispatch)
+        from job_shop_lib.dispatching import DispatcherObserver
+
+        class Plain(DispatcherObserver):
+            _is_singleton = False
+            def update(self, scheduled_operation): pass
+            def reset(self): pass
+
+        class Evictor(DispatcherObserver):
+            _is_singleton = False
+            def __init__(self, dispatcher, victim, at):
+                super().__init__(dispatcher)
+                self.victim, self.at, self.n = victim, at, 0
+            def update(self, scheduled_operation):
+                self.n += 1
+                if self.n == self.at and self.victim in self.dispatcher.subscribers:
+                    self.dispatcher.unsubscribe(self.victim)
+            def reset(self): pass
+        Evictor(d, Plain(d), rng.randint(1, 3))
+        ctx.count("observer_evicting_an_earlier_one_before_the_updater")
+    if case["seed"] % 7 == 5 and (case["rm_machines"] or case["rm_jobs"]):
+        # an earlier updater (and its completion observer) was attached and detached again
+        # without any dispatch in between
+        from .c16 import builders as _b
+        old_upd = ResidualGraphUpdater(d, _b()["disjunctive"](run.instance), **kwargs)
+        d.unsubscribe(old_upd)
+        d.unsubscribe(old_upd.is_completed_observer)
+        ctx.count("earlier_updater_detached_before_this_one")
     if case["seed"] % 6 == 0:
         # documented alternative: build unsubscribed, attach by hand
         upd = ResidualGraphUpdater(d, g0, subscribe=False, **kwargs)
